@@ -106,9 +106,16 @@ Definition set_cont (h : heap) (n : nat) (c : content) : heap :=
 Definition get_cont (h : heap) (n : nat) : content :=
   match nth_error h n with Some x => cont x | None => CNil end.
 
-Definition can_rlock (h : heap) (n : nat) : bool :=
+(** [strict = true]: a reader waits while any writer has announced itself
+    (writer preference exactly as documented).  [strict = false]: a reader only
+    waits for a writer that holds the lock.  The real RWMutex lies between the
+    two (a reader that was already waiting when the previous writer unlocked
+    is admitted before the next announced writer), so safety is proved for all
+    runs of the permissive relation, and progress is proved for the strict
+    notion of "enabled". *)
+Definition can_rlock (strict : bool) (h : heap) (n : nat) : bool :=
   match nth_error h n with
-  | Some x => negb (wr x) && Nat.eqb (pw x) 0
+  | Some x => negb (wr x) && (negb strict || Nat.eqb (pw x) 0)
   | None => false
   end.
 
@@ -364,12 +371,12 @@ Definition local_step (h : heap) (p : pc) : heap * pc :=
 (** ** one step of one thread; [None]: blocked (or finished) *)
 Definition is_done (p : pc) : bool := match p with PDone _ => true | _ => false end.
 
-Definition tstep (h : heap) (t : thread) : option (heap * thread) :=
+Definition tstep_gen (strict : bool) (h : heap) (t : thread) : option (heap * thread) :=
   if is_done (tpc t) then None else
   match lockop_of t with
   | LNone => let r := local_step h (tpc t) in Some (fst r, TH (snd r) (held t))
   | LRLock n =>
-      if can_rlock h n
+      if can_rlock strict h n
       then Some (do_rlock h n, TH (after_lock (tpc t)) ((n, MR) :: held t))
       else None
   | LReq n => Some (do_req h n, TH (after_lock (tpc t)) (held t))
@@ -391,15 +398,23 @@ Fixpoint set_nth {A} (l : list A) (i : nat) (x : A) : list A :=
   | y :: l', S i' => y :: set_nth l' i' x
   end.
 
-Definition step (s : state) (i : nat) : option state :=
+Definition step_gen (strict : bool) (s : state) (i : nat) : option state :=
   match nth_error (thr s) i with
   | None => None
   | Some t =>
-      match tstep (hp s) t with
+      match tstep_gen strict (hp s) t with
       | None => None
       | Some (h', t') => Some (ST h' (set_nth (thr s) i t'))
       end
   end.
+
+(** the transition relation all safety theorems quantify over *)
+Definition tstep := tstep_gen false.
+Definition step := step_gen false.
+
+(** enabled even if every announced writer is given preference *)
+Definition enabled_strict (s : state) (i : nat) : bool :=
+  match step_gen true s i with Some _ => true | None => false end.
 
 Definition empty_root : hnode := HN CNil 0 false 0.
 
